@@ -250,12 +250,13 @@ PROPS["C06"] = dict(
           "ctypes reads and crash-freedom are NOT decided (sampled only).",
     note=BOUNDED_NOTE + "; ctypes reference handling and interpreter crash-freedom remain assumptions")
 PROPS["C18"] = dict(
-    level="exploration", contracts=["contracts.types_fmt"], unit_filter=lambda u: u.name.startswith("C18."),
+    level="exploration", contracts=["contracts.types_fmt"],
+    unit_filter=lambda u: u.name.startswith("C18.") or u.name == "C19.Stack._format_header",
     legs=[dict(name="trees_C18", cmd="PYTHONPATH={repo} " + PY312 + " legs/trees.py C18"),
           dict(name="trees_C18_py311", cmd="PYTHONPATH={repo} " + PY311 + " legs/trees.py C18", thorough_only=True)] + old_pythons("trees_C18", "trees.py C18"),
     technique="bounded contract check: decoder (parse) applied to format() of generated Stack trees must return the tree's shape; "
               "string obligations of the line grammar are not discharged deductively (see DESIGN.md: fallback B taken)",
-    explanation="Deductive sub-lemmas: Formattable.format passes each public flag in its own field of one FormatOptions object and returns _format's lines unchanged; __str__ is ''.join(self.format()) with default options; Stack._format (string obligations, z3 sequences): the result is the header, then for every frame that is not (hidden and not show_hidden_frames), in order, that frame's lines each prefixed by the start-of-frame marker (first line) or the continuation marker (others) selected by ascii_only, then the leaf line (marker + repr + newline) iff there is a leaf, then the error lines iff there is an error; nothing else, no frame line dropped or reordered (ghost owner / offset functions). Frame._format / Context._format and the decodability of the composed prefixes are decided by the bounded leg only (fallback B of DESIGN.md).",
+    explanation="Deductive sub-lemmas: Formattable.format passes each public flag in its own field of one FormatOptions object and returns _format's lines unchanged; __str__ is ''.join(self.format()) with default options; Stack._format (string obligations, z3 sequences): the result is the header, then for every frame that is not (hidden and not show_hidden_frames), in order, that frame's lines each prefixed by the start-of-frame marker (first line) or the continuation marker (others) selected by ascii_only, then the leaf line (marker + repr + newline) iff there is a leaf, then the error lines iff there is an error; nothing else, no frame line dropped or reordered (ghost owner / offset functions). Stack._format_header names the root (by repr) iff root is not None, whatever its truth value; Stack._format_error (generator, two cuts) yields the heading, then for every chunk of traceback.format_exception(type(err), err, err.__traceback__) other than the banner every line of chunk.splitlines(True) behind two spaces, and nothing else; Context._name_and_type is '<name or _>: <type name>' iff there IS a manager object (falsy ones included), the bare name iff there is none. The decodability of the composed prefixes is decided by the bounded leg only (fallback B of DESIGN.md).",
     claim="Bounded stand-in: on 600 (thorough 3000) pseudo-random Stack trees of depth/width <= 3 built from real frames x 8 option sets, "
           "format() yields single newline-terminated lines, the executable decoder recovers the nesting from the box-drawing prefixes, "
           "str(x) is the concatenation, ascii_only is the image under the fixed marker map, hidden items are printed iff "
@@ -263,7 +264,8 @@ PROPS["C18"] = dict(
     note="NOT a proof; payload strings are single-line by construction of the generator (a repr containing a line separator would break the "
          "single-line clause trivially)")
 PROPS["C19"] = dict(
-    level="other", contracts=["contracts.types_fmt"], unit_filter=lambda u: u.name.startswith("C19."),
+    level="other", contracts=["contracts.types_fmt"],
+    unit_filter=lambda u: u.name.startswith("C19.") or u.name == "C18.Stack._format_error",
     legs=[dict(name="trees_C19", cmd="PYTHONPATH={repo} " + PY312 + " legs/trees.py C19"),
           dict(name="trees_C19_py311", cmd="PYTHONPATH={repo} " + PY311 + " legs/trees.py C19", thorough_only=True)] + old_pythons("trees_C19", "trees.py C19"),
     technique=TECH + "; bounded leg against an executable structural specification",
@@ -277,8 +279,10 @@ PROPS["C19"] = dict(
                 "summarised WITH contexts and the same flags, then each child Context's summaries with the same parent and flags (child "
                 "stacks skipped); Frame.as_stdlib_summary carries filename / lineno / funcname and locals iff capture_locals; every "
                 "FrameSummary argument is sort-checked to hold no frame; Stack.as_stdlib_summary is StackSummary.from_list of its own entries with "
-                "the three flags in their own positions. Not under contract: "
-                "format_flat, the text of names/override lines, pickling - decided by the bounded leg (random trees x 8 flag sets, pickle "
+                "the three flags in their own positions. format_flat is the header, then StackSummary.format() of as_stdlib_summary(show_contexts=...) iff there are frames, "
+                "then the leaf line iff there is a leaf (frames or not), then the _format_error lines iff there is an error, in this order and nothing else; "
+                "the header and _format_error units are shared with C18. Not under contract: "
+                "the text of override lines, StackSummary.format itself (stdlib), pickling - decided by the bounded leg (random trees x 8 flag sets, pickle "
                 "round trip, format_flat identity incl. recursion collapsing).",
     claim="Summary generators proved to be the structural projection; format_flat, pickling and the traceback module's rendering checked on "
           "a bounded family.",
